@@ -176,10 +176,38 @@ def run_history(ctx, hid, spec, hist, hs):
             continue
         fresh = pipeline.Book(edited, ctx.workdir, name='edited')
         pred = None
-        for (si, a) in queries(spec, written):
-            from excel2pycl import Cell
+        # which call comes FIRST after the batch varies: single cells in a shuffled order, one get_cells list, or whole sheets
+        # (a dependent sheet before the sheet that was written to) - a replay of pending overrides tied to one query path shows here
+        import random as _random
+        from excel2pycl import Cell
+        qrng = _random.Random(repr((hid, step, 'q')))
+        qs = queries(spec, written)
+        mode = qrng.choice(['cell', 'cell', 'cells', 'sheet', 'sheet'])
+        observed = {}
+        r.count('first_query_after_batch:' + mode)
+        if mode == 'cells':
+            got = pipeline.guarded(lambda: ex.get_cells([Cell(si, wbspec.rc(a)[1] - 1, wbspec.rc(a)[0] - 1) for (si, a) in qs]), 'evaluate')
+            if got.ok:
+                for (si, a), c_ in zip(qs, got.value):
+                    observed[(si, a)] = pipeline.Outcome(pipeline.VALUE, c_.value)
+        elif mode == 'sheet':
+            order = list(range(len(titles)))
+            qrng.shuffle(order)
+            for si_ in order:
+                grid = pipeline.guarded(lambda: ex.get_sheet(si_ if qrng.random() < 0.5 else titles[si_]), 'evaluate')
+                if not grid.ok:
+                    r.count('get_sheet_failed_fallback_to_cells')
+                    continue
+                r.count('sheets_read_as_grids')
+                for (si, a) in qs:
+                    rr, cc = wbspec.rc(a)
+                    if si == si_ and rr <= len(grid.value) and cc <= len(grid.value[rr - 1]):
+                        observed[(si, a)] = pipeline.Outcome(pipeline.VALUE, grid.value[rr - 1][cc - 1].value)
+        else:
+            qrng.shuffle(qs)
+        for (si, a) in qs:
             rr, cc = wbspec.rc(a)
-            o_h = pipeline.guarded(lambda: ex.get_cell(Cell(si, cc - 1, rr - 1)).value, 'evaluate')
+            o_h = observed.get((si, a)) or pipeline.guarded(lambda: ex.get_cell(Cell(si, cc - 1, rr - 1)).value, 'evaluate')
             o_f = fresh.value(si, a)
             r.ev()
             if not same_outcome(o_h, o_f):
